@@ -46,7 +46,7 @@ func C02(c *fw.Ctx) {
 	nModels, nRender := c.Pick(1500, 40000), c.Pick(4, 6)
 	c.Rule(fmt.Sprintf("%d seeded abstract models (info, servers, tags, enums, types in four notations, URL groups and stand-alone methods with "+
 		"query/request/responses/headers/path variables, JSON-RPC methods; schemas from a sub-language with objects, arrays, five scalars, "+
-		"references, unions, rules optional/min/max/minLength/nullable/enum/type/allOf and notes) x %d renderings each over the layout "+
+		"references, unions, shortcut keys, the rules optional/nullable/const/min/max/exclusiveMinimum/exclusiveMaximum/precision/minLength/maxLength/regex/minItems/maxItems/additionalProperties/enum (list, mixed literals, by name)/type (built-in and user)/allOf/or (names and objects) and notes; see observed schema_features) x %d renderings each over the layout "+
 		"dimensions (indent unit, LF/CRLF/CR, explicit/implicit contexts, URL-grouped/stand-alone, quoting, // vs /* */, comments, trailing "+
 		"blanks, MACRO+PASTE, INCLUDE files); oracle = expected catalog computed from the model alone; distinct = distinct rendered projects; "+
 		"non-trivial = model with >= 2 interactions and >= 1 type", nModels, nRender))
@@ -111,6 +111,9 @@ func C02(c *fw.Ctx) {
 		diffs := rn.m.Expect().Compare(v)
 		c.Inc("entities", "interactions_compared", rn.m.Interactions())
 		c.Inc("entities", "types_compared", rn.m.TypesCount())
+		for k, n := range rn.m.Features() {
+			c.Inc("schema_features", k, n)
+		}
 		for _, d := range diffs {
 			p := d.Path
 			// signature: kind + the path with names and indices removed
